@@ -22,7 +22,7 @@ ASSUMPTIONS = [
 ]
 BOUNDS = {"quick": {"variables": "<=4", "terms": "<=4 per side", "alphabet": [-2, -1, 1, 2]}, "thorough": {"variables": "<=5", "terms": "<=5 per side", "alphabet": [-3, -2, -1, 1, 2, 3, 0.5]}}
 OPTS = {"quick": {"tier_budget_s": 200, "max_paths": 3000, "job_budget_s": 60, "witness_rate": 1.0, "max_pass_replays": 1500}, "thorough": {"tier_budget_s": 1800, "max_paths": 20000, "job_budget_s": 300, "max_pass_replays": 20000}}
-REACH = {"quick": ["True", "False", "IAE", "kind:reflexive", "kind:farkas-tight", "left-infeasible", "contract"]}
+REACH = {"quick": ["True", "False", "IAE", "kind:reflexive", "kind:farkas-tight", "left-infeasible", "contract", "kind:contract:mismatch", "kind:contract:mismatch-roles"]}
 
 
 def mk_side(ctx, rows, prefix):
@@ -105,7 +105,7 @@ def jobs(tier, seed):
     nc = 40 if tier == "quick" else 500
     for i in range(nc):
         c1 = CS.rand_contract(rng, ["x"], ["y"], alphabet, na=(0, 1, 2), ng=(1, 2))
-        mode = rng.choice(["self", "weaker-a", "random", "needs-assumption", "mismatch"])
+        mode = rng.choice(["self", "weaker-a", "random", "needs-assumption", "mismatch", "mismatch-roles"])
         if mode == "self":
             c2 = {"share": True}
         elif mode == "random":
@@ -116,6 +116,10 @@ def jobs(tier, seed):
             # guarantee inclusion holds only under the right side's assumptions
             c1 = {"in": ["x"], "out": ["y"], "a": [], "g": [{"y": 1, "x": -1}]}
             c2 = {"in": ["x"], "out": ["y"], "a": [{"x": 1}], "g": [{"y": 1}]}
+        elif mode == "mismatch-roles":
+            # the same variable names in different roles
+            ins2, outs2 = rng.choice([(["y"], ["x"]), (["x", "y"], []), ([], ["x", "y"])])
+            c2 = CS.rand_contract(rng, ins2, outs2, alphabet, ng=(1,)) if outs2 else {"in": ins2, "out": [], "a": [B.rterm(rng, ins2, alphabet)], "g": []}
         else:
             c2 = CS.rand_contract(rng, rng.choice([["x", "u"], ["u"], ["x"]]), rng.choice([["y"], ["z"], ["y", "z"]]), alphabet)
             if c2["in"] == ["x"] and c2["out"] == ["y"]:
